@@ -67,16 +67,29 @@ func cmdContinue(p *lang.Process) error {
 	}
 
 	scope := p.Scope.Id
+
+	// only a block enclosing `continue` can be its target; a later sibling
+	// that happens to share the name (eg another `foreach`) must not be
+	enclosing := make(map[*lang.Process]bool)
+	for proc := p.Parent; proc != nil; proc = proc.Parent {
+		enclosing[proc] = true
+		if proc.Id == scope || proc.Parent == proc {
+			break
+		}
+	}
+
 	proc := p.Parent
 	for {
-		if proc.Name.String() == name {
-			return nil
-		}
-		if proc.Id == scope {
-			return fmt.Errorf(
-				"no block found named `%s` within the scope of `%s`",
-				name, p.Scope.Name.String(),
-			)
+		if enclosing[proc] {
+			if proc.Name.String() == name {
+				return nil
+			}
+			if proc.Id == scope {
+				return fmt.Errorf(
+					"no block found named `%s` within the scope of `%s`",
+					name, p.Scope.Name.String(),
+				)
+			}
 		}
 
 		proc.Done()
